@@ -90,6 +90,17 @@ class Tokenizer:
                     self.PENDING = sub.targets[0].id
         need(self.PENDING, "cannot identify the pending-order variable (no `x = table[token]` in the symbol branch)", fi)
 
+    def _constants_env(self):
+        """module-level constants that fold to plain values (tables and character sets moved out of the function)"""
+        from ..model import fold_const
+        env = {}
+        for name, val in self.fi.module.constants.items():
+            try:
+                env[name] = fold_const(val, self.fi.module)
+            except (ValueError, TypeError, KeyError):
+                continue
+        return env
+
     def _dispatch(self):
         reps = []
         for cls, chars in SPEC["representatives"].items():
@@ -103,7 +114,10 @@ class Tokenizer:
                     break
                 ev = Evaluator()
                 try:
-                    v = ev.truth(ev.eval(test, dict({self.token: ch}, **{nm: dict(self.table) for nm in self.table_names})))
+                    env0 = self._constants_env()
+                    env0.update({nm: dict(self.table) for nm in self.table_names})
+                    env0[self.token] = ch
+                    v = ev.truth(ev.eval(test, env0))
                 except Unsupported as err:
                     raise AnalysisError("dispatch test outside the predicate language: %s" % err, self.fi.where(test))
                 if v:
@@ -301,6 +315,10 @@ def tok_rules(repo, tier="quick"):
             pass
         elif isinstance(e, ast.BinOp) and isinstance(e.op, ast.Add) and isinstance(e.left, ast.Name) and e.left.id == T.token and \
                 isinstance(e.right, ast.Call) and isinstance(e.right.func, ast.Name) and e.right.func.id == "next":
+            pass
+        elif isinstance(e, ast.BinOp) and isinstance(e.op, ast.Add) and isinstance(e.left, ast.Name) and e.left.id == T.token and \
+                isinstance(e.right, ast.Name) and _peeked_then_consumed(T, body, nid, e.right):
+            # text += token + peeked; next(iter): the peeked character is appended and then consumed
             pass
         else:
             good = False
@@ -516,6 +534,27 @@ def _collect_ring(repo):
                   reason="the returned text is the maximal run of ring characters and the iterator stops right behind it")]
 
 
+def _peeked_then_consumed(T, body, nid, name):
+    """`name` holds iter.peek() and the statement that appends it is directly followed by a bare `next(iter)`"""
+    v, vn = resolve_ast(T.fl, name, nid) if id(name) in T.cfg.owner else (name, nid)
+    if isinstance(v, ast.Call) and isinstance(v.func, ast.Name) and not v.args:
+        # a bound method held in a local: peek = iter.peek
+        f2 = resolve_ast(T.fl, v.func, vn)[0]
+        if isinstance(f2, ast.Attribute):
+            v = ast.Call(func=f2, args=[], keywords=[])
+    if not (isinstance(v, ast.Call) and isinstance(v.func, ast.Attribute) and v.func.attr == "peek" and not v.args):
+        return False
+    for parent in [x for st in body for x in ast.walk(st)] + [None]:
+        stmts = body if parent is None else [s_ for f_ in ("body", "orelse") for s_ in (getattr(parent, f_, []) if isinstance(getattr(parent, f_, None), list) else [])]
+        for i, st in enumerate(stmts):
+            if T.cfg.node_of_stmt.get(id(st)) == nid and i + 1 < len(stmts):
+                nx_ = stmts[i + 1]
+                if isinstance(nx_, ast.Expr) and isinstance(nx_.value, ast.Call) and isinstance(nx_.value.func, ast.Name) and nx_.value.func.id == "next" and \
+                        len(nx_.value.args) == 1 and ast.unparse(nx_.value.args[0]) == ast.unparse(v.func.value):
+                    return True
+    return False
+
+
 def _descriptor_split(T, bracket_branch):
     """Inside the '[' branch: the if whose test looks for a descriptor kind character; returns
     (descriptor arm stmts, atom arm stmts, If node).  A guard clause (`if <kind test>: ...; continue` followed by the other
@@ -639,7 +678,7 @@ def _descriptor_rules(T, bb, darm, dnode):
         v = d.value
         if d.path and isinstance(v, (ast.Tuple, ast.List)) and len(d.path) == 1 and isinstance(d.path[0], int) and 0 <= d.path[0] < len(v.elts):
             v = v.elts[d.path[0]]       # order, pending = pending, None
-        gs = guards_of(fi, d.node)
+        gs = guards_of(fi, d.node, named=True)
         gtexts = [(t, pol, g) for t, pol, g in gs if g in T.nodes_of(darm) or True]
         if isinstance(v, ast.Constant) and v.value == 1:
             seen["default"] = (d, gtexts)
@@ -699,6 +738,8 @@ def _descriptor_rules(T, bb, darm, dnode):
         ok = False
         for t, pol, g in gs:
             conj = t.values if isinstance(t, ast.BoolOp) and isinstance(t.op, ast.And) else [t]
+            from .common import _named_condition
+            conj = [_named_condition(fi, c, g) for c in conj]     # conditions named with explanatory temporaries
             has_peek = any(isinstance(c, ast.Compare) and isinstance(c.ops[0], ast.In) and isinstance(c.comparators[0], ast.Name) and
                            c.comparators[0].id in T.table_names and "peek" in ast.unparse(c.left) for c in conj)
             has_zero = any(isinstance(c, ast.Compare) and isinstance(c.ops[0], ast.Eq) and isinstance(c.left, ast.Name) and c.left.id == T.COUNTER and
